@@ -16,7 +16,7 @@ RULE = ("programs in the common subset of the three front ends: lets (named / an
         "non-trivial = program has an anonymous object, a nested block or a macro; distinct = program spec / (program, choices)")
 ASSUMPTIONS = ["the auto-naming scheme is not prescribed: names are read back; only freshness and equality of the circuits are judged"]
 TIERS = {"quick": {"shards": 8, "budget_s": 40}, "thorough": {"shards": 16, "budget_s": 300}}
-REQUIRE = {"programs": 1500, "anonymous-let": 300, "anonymous-register": 300, "user-name-like-auto-name": 200,
+REQUIRE = {"qsyntax-functions-called-twice": 1500, "programs": 1500, "anonymous-let": 300, "anonymous-register": 300, "user-name-like-auto-name": 200,
            "implicit-wrap-expected": 300, "no-wrap-expected": 300, "pairs-compared": 4000, "subcircuit-with-count": 100,
            "full:programs": 1500, "full:macro-eager": 300, "full:loop-eager": 100, "full:map-eager": 200, "full:behaviour-compared": 3000,
            "full:eager-macro-calling-macro": 100}
@@ -190,7 +190,28 @@ def via_qsyntax(spec):
         for s in spec["body"]:
             emit(s)
 
-    return qsyntax.circuit(fn)()
+    decorated = qsyntax.circuit(fn)
+    first = decorated()
+    # a decorated function is an ordinary function: every call must build the same circuit again
+    again = decorated()
+    CALLS_AGAIN[0] += 1
+    try:
+        same = (again == first) and (first == again)
+    except Exception:
+        same = False
+    t1, t2 = lib.outcome(lib.generate, first), lib.outcome(lib.generate, again)
+    if not same or t1[:2] != t2[:2]:
+        raise SecondCallDiffers({"first": t1[1] if t1[0] == "ok" else t1[:3], "second": t2[1] if t2[0] == "ok" else t2[:3]})
+    return first
+
+
+CALLS_AGAIN = [0]
+
+
+class SecondCallDiffers(Exception):
+    def __init__(self, detail):
+        super().__init__("second call of the same decorated function builds another circuit")
+        self.detail = detail
 
 
 def via_builder(prog):
@@ -249,7 +270,14 @@ def judge(case):
     fails = []
     info = {"pairs": 0}
     user_names = [n for n, v, a in spec["lets"] if not a] + ([] if spec["reg"][2] else [spec["reg"][0]])
-    oq = lib.outcome(via_qsyntax, spec)
+    try:
+        oq = ("ok", via_qsyntax(spec))
+    except SecondCallDiffers as ex:
+        return "ok", [("qsyntax:second-call-of-the-same-function-differs", ex.detail)], info
+    except Exception as ex:
+        from jaqalpaq.error import JaqalError
+
+        oq = ("jaqal" if isinstance(ex, JaqalError) else "exc", type(ex).__name__, str(ex)[:300])
     if oq[0] != "ok":
         clash = any(n.startswith("__") for n in user_names)
         fails.append(("qsyntax-fails:%s%s" % (oq[1], ":user-name-like-auto-name" if clash else ""), {"error": oq[2], "user_names": user_names}))
@@ -461,6 +489,7 @@ def process(ctx, case):
         return
     rec.count("programs")
     rec.count("pairs-compared", info.get("pairs", 0))
+    rec.counters["qsyntax-functions-called-twice"] = CALLS_AGAIN[0]
     if anon_l:
         rec.count("anonymous-let")
     if anon_r:
